@@ -190,6 +190,11 @@ mut('C05', 'canceled_run_reported_failed', S, """	if sc.isCanceled() && !sc.isSu
 	}""", """	if sc.isCanceled() && !sc.isSucceed(g) {
 		return StatusError
 	}""")
+mut('C05', 'signal_reaches_only_the_leader_process', 'internal/dag/executor/command.go', """	return syscall.Kill(-e.cmd.Process.Pid, sig.(syscall.Signal))""", """	return syscall.Kill(e.cmd.Process.Pid, sig.(syscall.Signal))""")
+mut('C05', 'step_shares_the_agents_process_group', 'internal/dag/executor/command.go', """		Setpgid: true,
+		Pgid:    0,""", """		Setpgid: false,
+		Pgid:    0,""")
+mut('C11', 'outputs_prepended_to_environment', 'internal/dag/executor/command.go', """		cmd.Env = append(cmd.Env, value.(string))""", """		cmd.Env = append([]string{value.(string)}, cmd.Env...)""")
 # ---- C10
 mut('C10', 'interrupted_steps_not_reset', G, """				dict[u] == NodeStatusCancel || dict[u] == NodeStatusRunning {""", """				dict[u] == NodeStatusCancel {""")
 mut('C10', 'canceled_steps_not_reset', G, """			if retry[u] || dict[u] == NodeStatusError ||
